@@ -96,6 +96,9 @@ def install_proxies(use_command):
                 return _Run(1, b"", b"injected: formatter exit status 1")
             if Faults.kind == 2:
                 return _Run(0, GARBAGE.encode())
+            if Faults.kind == 3:
+                # killed by a signal: negative return code, stdout truncated at a statement boundary (still valid Python)
+                return _Run(-9, input.decode("utf-8").split("\n\n")[0].encode("utf-8") + b"\n", b"")
             raise OSError("injected: cannot start the format-command")
         import black as _b
 
@@ -146,7 +149,7 @@ def remove_proxies(saved):
 def fault_case(use_command, at, kind, create, fix, vals):
     world.reset(dict(vals))
     flags = [n for n, b in (("create", create), ("fix", fix)) if b]
-    kind = 0 if kind == 0 else (1 if kind == 1 else 2)
+    kind = 0 if kind == 0 else (1 if kind == 1 else (2 if kind == 2 else 3))
     Faults.at = at
     Faults.kind = kind
     Faults.count = 0
@@ -177,6 +180,14 @@ def fault_case(use_command, at, kind, create, fix, vals):
         if not parses:
             ok, why = False, f"{name} is syntactically broken after a fault at {fired}"
             continue
+        if text != old:
+            # a complete new content: everything outside the snapshot arguments (and the inserted import) is still there
+            with world.NoTracing():
+                strip = lambda t_: str(t_).replace("\nfrom inline_snapshot import external\n", "")
+                a_ = ast.dump(ast.parse(world.mask_snapshot_args(strip(old))))
+                b_ = ast.dump(ast.parse(world.mask_snapshot_args(strip(text))))
+            if a_ != b_:
+                ok, why = False, f"{name}: content outside the snapshot arguments was lost or changed after a fault at {fired}"
         if text != old and create and fix:
             # a complete new content: with create+fix approved every snapshot of the rewritten file holds the observed value
             vals_ = world.snapshot_values(text, {"external": _external_probe})
@@ -188,7 +199,7 @@ def fault_case(use_command, at, kind, create, fix, vals):
             if not good:
                 ok, why = False, f"{name}: new content is not complete/correct: {world.snapshot_arg_sources(text)}"
     # a formatter failure (crash / non-zero exit) degrades to unformatted but correct code plus a reported problem
-    if fired in ("black.format_str", "format-command") and kind in (0, 1) and flags and r.finish_error is None:
+    if fired in ("black.format_str", "format-command") and kind in (0, 1, 3) and flags and r.finish_error is None:
         if not problems_reported:
             ok, why = False, "formatter failed but no problem was reported"
     # no test file references data that the next session would prune
@@ -204,7 +215,7 @@ def fault_case(use_command, at, kind, create, fix, vals):
         while GS._latest_global_states:
             GS.leave_snapshot_context()
     PathLog.record(f"{use_command}{fired}{kind}{flags}{sorted(k for k, v in texts.items() if v != r.texts[k])}{type(r.finish_error).__name__}", nontrivial=fired is not None,
-                   sample={"formatter": "format-command" if use_command else "black", "fault_at_call": fired, "kind": ["exception", "non-zero exit", "unparsable output"][kind], "flags": flags,
+                   sample={"formatter": "format-command" if use_command else "black", "fault_at_call": fired, "kind": ["exception", "non-zero exit", "unparsable output", "killed: negative return code, truncated output"][kind], "flags": flags,
                            "files_rewritten": sorted(k for k, v in texts.items() if v != r.texts[k]), "session_end_error": type(r.finish_error).__name__ if r.finish_error else None, "why": why})
     return ok
 
@@ -225,13 +236,13 @@ VD = "{" + ", ".join(f"{n!r}: {n}" for n in VALS) + "}"
 def conditions(tier):
     conds = []
     for use_command in (False, True):
-        for kind in ((0, 1, 2) if use_command else (0,)):  # black is a library call: it raises or returns
+        for kind in ((0, 1, 2, 3) if use_command else (0,)):  # black is a library call: it raises or returns
             for lo, hi in (((0, 3), (4, 7), (8, 11), (12, 15), (16, 19), (20, 23), (24, 31), (32, 40)) if not use_command else ((0, 7), (8, 15), (16, 23), (24, 40))):
                 name = f"fault_{'cmd' if use_command else 'black'}_k{kind}_at{lo}_{hi}"
                 fn = mkfn(name, [("at", "int"), ("kind", "int"), ("create", "bool"), ("fix", "bool")] + [(n, "int") for n in VALS],
                           f"return fault_case({use_command}, at, kind, create, fix, {VD})", GLB, pre=[f"{lo} <= at <= {hi} and kind == {kind}"])
                 conds.append(Cond(name, fn, timeout=1200, group="faults",
-                                  bounds=f"formatter {'format-command' if use_command else 'black'}; the {lo}..{hi}-th environment call (format / read_text / rename / open-for-write, in execution order) fails with {['an exception', 'a non-zero exit status (exception for non-subprocess calls)', 'unparsable output (exception for non-formatter calls)'][kind]}; create/fix approved or not; 4 values symbolic"))
+                                  bounds=f"formatter {'format-command' if use_command else 'black'}; the {lo}..{hi}-th environment call (format / read_text / rename / open-for-write, in execution order) fails with {['an exception', 'a non-zero exit status (exception for non-subprocess calls)', 'unparsable output (exception for non-formatter calls)', 'death by signal: negative return code and truncated but parsable output (exception for non-subprocess calls)'][kind]}; create/fix approved or not; 4 values symbolic"))
     tw = mkfn("fault_twin", [("at", "int"), ("kind", "int"), ("create", "bool"), ("fix", "bool")] + [(n, "int") for n in VALS], f"return fault_case(False, at, kind, create, fix, {VD})", GLB, pre=["at == 3 and kind == 0 and create and fix"], post="not _")
     conds.append(Cond("fault_twin", tw, timeout=60, twin=True))
     return conds
